@@ -310,9 +310,8 @@ Definition do_action (s : kstate) (u : nat) (cur_snd : ref) (act : action) : R :
       match act with
       | ATell t n => let '(s1, sn) := next_serial s in let '(s2, o) := deliver_user s1 t rNone (UProbe n sn) in ok s2 (OS self t sn :: o)
       | AAsk t n => let '(s1, sn) := next_serial s in let '(s2, o) := deliver_user s1 t self (UProbe n sn) in ok s2 (OS self t sn :: o)
-      | AReply n =>
-          if cur_snd =? rNone then ok s []
-          else let '(s1, sn) := next_serial s in let '(s2, o) := deliver_user s1 cur_snd self (UProbe n sn) in ok s2 (OS self cur_snd sn :: o)
+      | AReply n =>       (* ctx.Reply = Ask(ctx.Sender(), m); without a sender (message sent by Tell) the receiver is nil: a dead letter *)
+          let '(s1, sn) := next_serial s in let '(s2, o) := deliver_user s1 cur_snd self (UProbe n sn) in ok s2 (OS self cur_snd sn :: o)
       | ABcast n =>
           let '(s1, sn) := next_serial s in let '(s2, o) := send_each s1 self (a_children a) n sn in
           ok s2 (map (fun t => OS self t sn) (a_children a) ++ o)
